@@ -433,7 +433,8 @@ def equal(a, b):
 
 def parse(s):
     from .idioms import normalize
-    return normalize(ast.parse(s, mode="eval")).body
+    from .prenorm import normalize_calls
+    return normalize(normalize_calls(ast.parse(s, mode="eval"))).body
 
 
 def equal_src(node, src):
